@@ -507,25 +507,33 @@ func (t *Target) gnmiUpdate(n *pb.Notification) (*ctree.Leaf, error) {
 		suffix = nil
 	}
 	path := joinPrefixAndPath(n.Prefix, suffix)
+	// Updates come from remote targets: nothing about their paths and values
+	// can be taken for granted.
+	if len(path) == 0 {
+		return nil, errors.New("update with an empty path")
+	}
 	if path[0] == metadata.Root {
+		if len(path) < 2 {
+			return nil, fmt.Errorf("update of the metadata root %q", metadata.Root)
+		}
 		realData = false
 		u := n.Update[0]
 		switch path[1] {
 		case metadata.Sync:
 			var ok bool
-			tv, ok := u.Val.Value.(*pb.TypedValue_BoolVal)
+			tv, ok := u.GetVal().GetValue().(*pb.TypedValue_BoolVal)
 			if !ok {
 				return nil, fmt.Errorf("%v : has value %v of type %T, expected boolean", metadata.Path(metadata.Sync), u.Val, u.Val)
 			}
 			t.meta.SetBool(metadata.Sync, tv.BoolVal)
 		case metadata.Connected:
-			tv, ok := u.Val.Value.(*pb.TypedValue_BoolVal)
+			tv, ok := u.GetVal().GetValue().(*pb.TypedValue_BoolVal)
 			if !ok {
 				return nil, fmt.Errorf("%v : has value %v of type %T, expected boolean", metadata.Path(metadata.Connected), u.Val, u.Val)
 			}
 			t.meta.SetBool(metadata.Connected, tv.BoolVal)
 		case metadata.ConnectedAddr, metadata.ConnectError:
-			tv, ok := u.Val.Value.(*pb.TypedValue_StringVal)
+			tv, ok := u.GetVal().GetValue().(*pb.TypedValue_StringVal)
 			if !ok {
 				return nil, fmt.Errorf("%v : has value %v of type %T, expected string", metadata.Path(path[1]), u.Val, u.Val)
 			}
@@ -647,7 +655,11 @@ func pathElems(p *pb.Path) []*pb.PathElem {
 
 func (t *Target) gnmiRemove(n *pb.Notification) []*ctree.Leaf {
 	path := joinPrefixAndPath(n.Prefix, n.Delete[0])
-	if path[0] == metadata.Root {
+	if len(path) == 0 {
+		// A delete without any path names nothing.
+		return nil
+	}
+	if path[0] == metadata.Root && len(path) > 1 {
 		t.meta.ResetEntry(path[1])
 	}
 	var leaves []*ctree.Leaf
@@ -723,7 +735,7 @@ func (t *Target) generateMetaUpdates(clients func(*ctree.Leaf)) {
 		}
 		path := metadata.Path(value)
 		prev := t.t.GetLeafValue(path)
-		if prev == nil || prev.(*pb.Notification).Update[0].Val.Value.(*pb.TypedValue_BoolVal).BoolVal != v {
+		if cur, ok := metaLeafValue(prev).(*pb.TypedValue_BoolVal); !ok || cur.BoolVal != v {
 			noti := metaNotiBool(t.name, value, v)
 			if n, _ := t.gnmiUpdate(noti); n != nil {
 				if clients != nil {
@@ -743,7 +755,7 @@ func (t *Target) generateMetaUpdates(clients func(*ctree.Leaf)) {
 		}
 		path := metadata.Path(value)
 		prev := t.t.GetLeafValue(path)
-		if prev == nil || prev.(*pb.Notification).Update[0].Val.Value.(*pb.TypedValue_IntVal).IntVal != v {
+		if cur, ok := metaLeafValue(prev).(*pb.TypedValue_IntVal); !ok || cur.IntVal != v {
 			noti := metaNotiInt(t.name, value, v)
 			if n, _ := t.gnmiUpdate(noti); n != nil {
 				if clients != nil {
@@ -763,7 +775,7 @@ func (t *Target) generateMetaUpdates(clients func(*ctree.Leaf)) {
 		}
 		path := metadata.Path(value)
 		prev := t.t.GetLeafValue(path)
-		if prev == nil || prev.(*pb.Notification).Update[0].Val.Value.(*pb.TypedValue_StringVal).StringVal != v {
+		if cur, ok := metaLeafValue(prev).(*pb.TypedValue_StringVal); !ok || cur.StringVal != v {
 			noti := metaNotiStr(t.name, value, v)
 			if n, _ := t.gnmiUpdate(noti); n != nil {
 				if clients != nil {
@@ -772,6 +784,17 @@ func (t *Target) generateMetaUpdates(clients func(*ctree.Leaf)) {
 			}
 		}
 	}
+}
+
+// metaLeafValue returns the typed value stored in a metadata leaf, or nil if
+// the leaf is missing or does not hold a single-valued notification (a target
+// can write anything below the metadata root).
+func metaLeafValue(leaf interface{}) interface{} {
+	n, ok := leaf.(*pb.Notification)
+	if !ok || len(n.GetUpdate()) == 0 {
+		return nil
+	}
+	return n.GetUpdate()[0].GetVal().GetValue()
 }
 
 // Reset clears the Target of stale data upon a reconnection and notifies
